@@ -361,6 +361,11 @@ package list
 //@   modifies nothing
 //@   ensures result != nil && fresh(result)
 //@   ensures result.lastRecordId == st.lastRecordId
+//@   requires st != nil
+//@   assumes st.key != nil && st.list != nil
+//@   ensures [copy_owns_its_maps] fresh(result.keys) && fresh(result.accountStates) && fresh(result.invites) && fresh(result.requestRecords) && fresh(result.pendingRequests)
+//@ func newContentValidator
+//@   modifies nothing
 // ApplyRecord works on the state it is called on (here: always the fresh copy).
 //@ func (*AclState).ApplyRecord
 //@   trusted
